@@ -10,13 +10,13 @@ from checks import c48
 META = {
     "engine": "mtest", "level": "exploration", "design_ref": "DESIGN.md §4.6 C53",
     "technique": "generated .ptest inputs (isotropic elastic behaviour built from the reference Elasticity.mfront, generic interface, small strain) run by `mtest --scheme=ptest` on meshes N, 2N, 4N; radial/hoop/axial stresses at the Gauss points of the @Profile file, inner/outer displacements and axial strain of the result file compared with the closed-form Lame solution of the selected axial loading; error bound C.(h/Ri)^p and observed convergence order",
-    "text": "For random inner radius (1e-3..1), thickness ratio (0.01..2), inner/outer pressures of either sign, E, nu, element type (Linear, Quadratic, Cubic), base element count (1..50, refined x2 and x4) and axial loading (None = zero axial force, EndCapEffect = pi(Ri^2 Pi - Re^2 Pe), ImposedAxialForce, ImposedAxialGrowth = imposed uniform axial strain; semantics read from docs/mtest/ptest/AxialLoading.md and checked against PipeTest.cxx), the stresses A -/+ B/r^2, sigma_zz = 2 nu A + E ezz and u(r) = r (sigma_tt - nu (sigma_rr + sigma_zz))/E are compared with the PipeTest output. Required: finite results; stress and axial-strain errors (relative to |A|+|B|/Ri^2) below 100 (h/Ri)^p + 1e-7 with p = 1, 2, 3; displacement errors below 100 (h/Ri)^(p+1) + 1e-7; errors decreasing under refinement while above 1e-5; observed order of the stress error at least p - 0.5 when the coarser mesh has h/Ri <= 0.15 and the errors are above 1e-6.",
+    "text": "For random inner radius (1e-3..1), thickness ratio (0.01..2), inner/outer pressures of either sign, E, nu, element type (Linear, Quadratic, Cubic), base element count (1..50, refined x2 and x4) and axial loading (None = zero axial force, EndCapEffect = pi(Ri^2 Pi - Re^2 Pe), ImposedAxialForce, ImposedAxialGrowth = imposed uniform axial strain; semantics read from docs/mtest/ptest/AxialLoading.md and checked against PipeTest.cxx), the stresses A -/+ B/r^2, sigma_zz = 2 nu A + E ezz and u(r) = r (sigma_tt - nu (sigma_rr + sigma_zz))/E are compared with the PipeTest output. Required: finite results; stress and axial-strain errors (relative to |A|+|B|/Ri^2) below 100 (h/Ri)^p + 1e-6 with p = 1, 2, 3; displacement errors below 100 (h/Ri)^(p+1) + 1e-6 (1e-6: 25x the rounding floor observed on thin pipes with 200 cubic elements); errors decreasing under refinement while above 1e-5; observed order of the stress error at least p - 0.5 when the coarser mesh has h/Ri <= 0.15 and the errors are above 1e-5.",
     "note": "Trusted: the Lame formulas (generalised plane strain with uniform ezz). A linear elastic problem that PipeTest cannot solve (no convergence) is reported, not excluded: the property quantifies over every geometry and element type. Finite-strain analysis is not covered (the closed form is a small-strain one).",
 }
 
 ETYPES = {"Linear": 1, "Quadratic": 2, "Cubic": 3}
 AXIAL = ["None", "EndCapEffect", "ImposedAxialForce", "ImposedAxialGrowth"]
-CB, FLOOR = 100.0, 1e-7
+CB, FLOOR = 100.0, 1e-6
 
 
 def build(ctx):
@@ -175,7 +175,7 @@ def judge(c, outs):
         for q, name in (("e_s", "stress"), ("e_u", "displacement")):
             if a[q] > 1e-5 and not (b[q] < a[q]):
                 V.append(("%s:%s:error-not-decreasing" % (kb, name), "%s error %.3g with %d elements, %.3g with %d: %s" % (name, a[q], a["n"], b[q], b["n"], desc)))
-        if a["h"] <= 0.15 and b["e_s"] > 1e-6:
+        if a["h"] <= 0.15 and b["e_s"] > 1e-5:
             order = math.log2(a["e_s"] / b["e_s"])
             a["order"] = order
             if not (order >= p - 0.5):
